@@ -102,11 +102,16 @@ func ZZC19_bindings() {
 	manUD, f2 := zzCall(ls, s.manifestGet, lua.LString("ocidir://"+zzLayout+":v1"))
 	cfgUD, f3 := zzCall(ls, s.configGet, lua.LString("ocidir://"+zzLayout+":v1"))
 	zzAssert(!f1 && !f2 && !f3 && len(refUD) == 1 && len(manUD) == 1 && len(cfgUD) == 1, "setup_reads_succeed")
+	// blob handles: from blob.head (no reader) and blob.get (with reader) of the seeded layer
+	layerDig := digest.FromBytes([]byte("layer")).String()
+	bhUD, f4 := zzCall(ls, s.blobHead, lua.LString("ocidir://"+zzLayout+":v1"), lua.LString(layerDig))
+	bgUD, f5 := zzCall(ls, s.blobGet, lua.LString("ocidir://"+zzLayout+":v1"), lua.LString(layerDig))
+	zzAssert(!f4 && !f5 && len(bhUD) >= 1 && len(bgUD) >= 1, "setup_blob_reads_succeed")
 	pool := []lua.LValue{
 		lua.LString("ocidir://" + zzLayout + ":v1"),
 		lua.LString("ocidir://" + zzLayout + ":v2"),
 		lua.LString("ocidir:///new:v1"),
-		refUD[0], manUD[0], cfgUD[0],
+		refUD[0], manUD[0], cfgUD[0], bhUD[0], bgUD[0],
 		lua.LString("/import.tar"),
 		ls.NewTable(),
 		lua.LNil,
